@@ -224,3 +224,79 @@ def accepted_document(r, parser, p=DEFAULT, n=None, tries=20, **kw):
         except Exception:
             continue
     return None, None
+
+
+# --- comment layouts (C14, C04): comment runs in every position relative to directives, postings and meta items -------------
+
+def _crun(r, ind, nl_='\n'):
+    n = r.choice([1, 1, 2])
+    return ''.join(ind + r.choice([';', '; c', ';c', '; two words', '; ;;']) + nl_ for _ in range(n))
+
+
+def layout_document(r, crlf=False):
+    """Documents built line by line with a comment run (matching or mismatching indentation, optionally blank-separated)
+    offered at every boundary."""
+    e = '\r\n' if crlf else '\n'
+    out = []
+
+    def maybe_comment(ind, p=0.45):
+        if r.random() < p:
+            k = r.random()
+            if k < 0.15:
+                out.append(e)                       # blank line above
+            cind = ind if r.random() < 0.8 else ('' if ind else '  ')   # mismatching indentation class
+            out.append(_crun(r, cind, e))
+            if r.random() < 0.15:
+                out.append(r.choice(['', '  ']) + e)  # blank / whitespace-only line below
+            if r.random() < 0.2:
+                out.append(_crun(r, ind if r.random() < 0.7 else ('' if ind else '    '), e))
+
+    maybe_comment('', 0.5)
+    for _ in range(r.randint(1, 4)):
+        kind = r.choice(['open', 'txn', 'txn', 'txn', 'close', 'note', 'option', 'balance', 'pushtag', 'ignored'])
+        ic = r.choice(['', '', ' ; i'])
+        ind = r.choice(['  ', '    ', '\t'])
+        if kind == 'option':
+            out.append('option "a" "b"' + ic + e)
+        elif kind == 'pushtag':
+            out.append('pushtag #t' + ic + e)
+        elif kind == 'ignored':
+            out.append('* heading' + e)
+        else:
+            head = {'open': '2000-01-01 open Assets:Foo USD', 'close': '2000-01-02 close Assets:Foo',
+                    'note': '2000-01-03 note Assets:Foo "n" #t', 'balance': '2000-01-04 balance Assets:Foo 1 USD',
+                    'txn': '2000-01-05 * "p" "n"'}[kind]
+            out.append(head + ic + e)
+            nmeta = r.choice([0, 0, 1, 2])
+            for i in range(nmeta):
+                maybe_comment(ind, 0.35)
+                out.append(ind + f'k{i}: "v"' + r.choice(['', ' ; i']) + e)
+            if kind == 'txn':
+                npost = r.choice([0, 0, 1, 2, 3])
+                for i in range(npost):
+                    maybe_comment(ind, 0.35)
+                    out.append(ind + r.choice(['', '! ']) + f'Assets:P{i}  {i + 1} USD' + r.choice(['', ' ; i']) + e)
+                    for j in range(r.choice([0, 0, 1, 2])):
+                        maybe_comment(ind + '  ', 0.35)
+                        out.append(ind + '  ' + f'm{j}: 1' + e)
+                    if r.random() < 0.25:
+                        out.append(_crun(r, ind + '  ', e))
+            maybe_comment(ind, 0.35)          # inside the block, before the dedent
+        if r.random() < 0.3:
+            out.append(e)
+        maybe_comment('', 0.45)
+    text = ''.join(out)
+    if r.random() < 0.25:
+        text = text.rstrip('\r\n')
+    return text
+
+
+def accepted_layout(r, parser, tries=20, **kw):
+    from autobean_refactor import models
+    for _ in range(tries):
+        t = layout_document(r, crlf=r.random() < 0.2)
+        try:
+            return t, parser.parse(t, models.File, **kw)
+        except Exception:
+            continue
+    return None, None
